@@ -98,6 +98,20 @@ Proof.
   reflexivity.
 Qed.
 
+(** (3b) identifier form: the closed form is itself an identifier that is not free: exactly the closure's environment
+    (no fall-through at all in this form when no enclosing closure has free names) *)
+Theorem ident_lookup_exact_proof c E free k :
+  ~ In k free -> fv_memq k (c_fv c) = None -> ident_cell c E free k = env_cell E k.
+Proof.
+  intros Hn Hf. unfold ident_cell. rewrite Hf.
+  assert (He : existsb (String.eqb k) free = false).
+  { induction free as [|a r IH]; [reflexivity|]. cbn [existsb].
+    destruct (String.eqb k a) eqn:Ea.
+    - apply String.eqb_eq in Ea. exfalso. apply Hn. left. symmetry. exact Ea.
+    - apply IH. intro H. apply Hn. right. exact H. }
+  rewrite He. destruct (env_cell E k); reflexivity.
+Qed.
+
 (** ** the macros of the check *)
 Definition wfree (w : wrapper) : list string := match w with WSc _ free _ => free | WEr => [] end.
 
